@@ -161,7 +161,7 @@ const OTHER_RULES: [&str; 8] = [
 // container serialized in hash order would have >= 24 possible orders.
 // ------------------------------------------------------------------------------------------------
 
-const WIDE: [&[&str]; 25] = [
+const WIDE: [&[&str]; 26] = [
     // 4 fusable rules in one token bucket of `filters`
     &["wide/aa", "wide/bb", "wide/cc", "wide/dd"],
     // one bucket, two fusion groups (the optimizer groups them in a hash map)
@@ -212,6 +212,10 @@ const WIDE: [&[&str]; 25] = [
     &["adframe$tag=t1", "framead$tag=t1", "adframe$tag=t2", "framead$tag=t2"],
     &["wideaa$tag=t1", "widebb$tag=t1", "wideaa$tag=t2", "widebb$tag=t2"],
     &["@@adframe$tag=t1", "@@framead$tag=t1", "@@adframe$tag=t2", "@@framead$tag=t2"],
+    // fusable rules of one bucket in which one pattern text occurs more than once (the same pattern
+    // under another option order / another letter case is another line): whatever is done about the
+    // repetition inside the fused rule, its pattern list is written out as it stands
+    &["wide/pp$image,script", "wide/pp$script,image", "wide/qq$image,script", "wide/rr$image,script", "WIDE/qq$image,script", "wide/ss$script,image"],
     // 4 generichide exceptions
     &["@@||g1.com^$generichide", "@@||g2.com^$generichide", "@@||g3.com^$generichide", "@@||g4.com^$generichide"],
 ];
